@@ -34,7 +34,8 @@ CHECKS = [
              '(true on the open triangle = strict convex combinations of the vertices, false off the closed triangle, both orientations) and, by the exact fan decomposition '
              'pnpoly_fan + induction, for every strictly convex polygon with any number of vertices (true on the open polygon off the fan diagonals of one vertex, false outside), '
              'in particular for the ideal vertices of RegularPolygonPixelRegion for every n >= 3 (proved strictly convex over R: C01Regular); '
-             '"even-odd = inside" for arbitrary NON-convex simple polygons is NOT a theorem (needs Jordan curve) and is decided by the differential run against an exact-rational crossing oracle.',
+             'for EVERY vertex list in generic position the ray-casting implementation is proved equal to the fan parity (number of fan triangles containing the point mod 2, C01Fan), a direction-free definition of even-odd filling; '
+             'that the fan parity of a NON-convex simple polygon is its interior is the classical triangulation fact (Jordan curve), NOT a theorem here: decided by the differential run against an exact-rational crossing oracle.',
      'note': 'Trusted: Lean kernel/Mathlib/3 std axioms; hand model Shapes.lean/Region.lean tied to the code by the correspondence run '
              '(exact rationals, boundary band 1e-9 excepted as C01 allows); np.cos/np.sin/np.hypot correct to a few ulp; the compiled pnpoly .so is what runs.'},
     {'property_id': 'C04',
@@ -52,7 +53,7 @@ CHECKS = [
              'point/line/text and any compound of them (induction, any depth) contains a rotated position exactly when the original contained the unrotated one; class, operator and include flags '
              'are preserved, area unchanged for EVERY class (polygons: the shoelace sum is rotation invariant, telescoping over the closed polygon), rotating back restores every parameter (all classes incl. polygons: vertex map). Translation: membership follows a translation for EVERY class '
              '(polygons included) and the bounding box of any region expression moves by exactly the integer shift (incl. the exact sqrt-floor ellipse box). '
-             'The mask of ANY region expression is unchanged by a whole-pixel translation and its box moves with it (mask_shift, center/subpixels, polygons via translation invariance of the even-odd rule). Rotation invariance of the even-odd answer is proved for triangles and strictly convex polygons (pnpoly_triangle_rotate, pnpoly_convex_rotate: strictly inside off the fan diagonals / strictly outside); NOT a theorem for non-convex polygons (the region-expression theorem carries polygonFree); exact-mode masks under translation are checked on the real code.',
+             'The mask of ANY region expression is unchanged by a whole-pixel translation and its box moves with it (mask_shift, center/subpixels, polygons via translation invariance of the even-odd rule). Rotation invariance of the even-odd answer is proved for ARBITRARY polygons in generic position (pnpoly_rotate_generic via the fan parity; C15Poly.contains_rotate: every region expression incl. polygons) and without the genericity hypothesis for triangles and strictly convex polygons strictly inside/outside; points on a fan line (a null set containing the boundary) are validated only; exact-mode masks under translation are checked on the real code.',
      'note': 'Trusted: Lean kernel/Mathlib/3 std axioms; hand model Region.lean (rotate/shift) tied by the correspondence run: rotated parameters within 1e-9*scale of the exact model values, '
              'membership compared outside a rounding band; original object fingerprinted before/after.'},
     {'property_id': 'C14',
